@@ -74,11 +74,39 @@ struct WMon {
     /// relayable uplink datagrams injected and not yet seen at the client seam
     relay_pending: Vec<(Vec<u8>, u64)>,
     n_accepted: u64,
+    // ---- C19 on the wire ----
+    /// paths the uplink list holds (by the monitor's own reading of the accepted files)
+    active: Vec<usize>,
+    reload: Option<ReloadW>,
+    /// removed paths: no datagram may leave their old socket after this instant
+    dead_since: HashMap<usize, u64>,
+    last_send: HashMap<usize, u64>,
+    last_reload_ts: Option<u64>,
+    reload_windows: Vec<(u64, u64)>,
+    v6_paths: Vec<usize>,
+    c19_off: bool,
+}
+
+/// An accepted reload whose application (at the next housekeeping tick) is awaited.
+struct ReloadW {
+    ts: u64,
+    deadline: u64,
+    list: Vec<usize>,
+    added: Vec<usize>,
+    removed: Vec<usize>,
+    survivors: Vec<usize>,
+    binds_seen: HashMap<usize, u32>,
+}
+
+/// The statement's reading of an IP-list file: the parsable lines, in order.
+fn parsable_lines(text: &str) -> Vec<std::net::IpAddr> {
+    text.lines().map(|l| l.trim()).filter(|l| !l.is_empty()).filter_map(|l| l.parse().ok()).collect()
 }
 
 const M1: &str = "C01";
 const M9: &str = "C09";
 const M14: &str = "C14";
+const M19: &str = "C19";
 
 fn internal(t: u16) -> bool {
     matches!(t, T_REG2 | T_REG3 | T_REG_ERR | T_REG_NGP | T_SRTLA_ACK | T_KEEPALIVE)
@@ -89,6 +117,7 @@ impl WMon {
         self.registered
             .keys()
             .filter(|p| self.heard.get(p).is_some_and(|h| now.saturating_sub(*h) < timeout))
+            .filter(|p| !self.reload.as_ref().is_some_and(|r| r.removed.contains(p)))
             .count()
     }
 
@@ -113,8 +142,59 @@ impl WMon {
         }
     }
 
+    /// SIGHUP with the file holding `text` (None: no file).
+    fn on_reload(&mut self, now: u64, text: Option<&str>, paths: &[(std::net::IpAddr, usize)], out: &mut MonOut) {
+        out.probe("w.c19.sighup");
+        if self.reload.is_some() {
+            // a second SIGHUP before the first was applied: which list wins depends on the tick
+            // phase, which the wire does not show - C19 is not judged in the rest of this run
+            self.c19_off = true;
+        }
+        if self.c19_off {
+            self.reload = None;
+            self.last_reload_ts = None;
+            self.dead_since.clear();
+            return;
+        }
+        self.last_reload_ts = Some(now);
+        let list: Vec<usize> = {
+            let mut v: Vec<usize> = Vec::new();
+            for ip in text.map(parsable_lines).unwrap_or_default() {
+                if let Some((_, p)) = paths.iter().find(|(i, _)| *i == ip)
+                    && !v.contains(p)
+                {
+                    v.push(*p);
+                }
+            }
+            v
+        };
+        if list.is_empty() {
+            out.probe("w.c19.refused");
+            return;
+        }
+        out.probe("w.c19.accepted");
+        let added: Vec<usize> = list.iter().copied().filter(|p| !self.active.contains(p)).collect();
+        let removed: Vec<usize> = self.active.iter().copied().filter(|p| !list.contains(p)).collect();
+        let survivors: Vec<usize> = self.active.iter().copied().filter(|p| list.contains(p)).collect();
+        if !removed.is_empty() {
+            self.reload_windows.push((now, now + 1030));
+            out.probe("w.c19.removal");
+        }
+        if !added.is_empty() {
+            out.probe("w.c19.addition");
+        }
+        self.reload = Some(ReloadW { ts: now, deadline: now + 1030, list, added, removed, survivors, binds_seen: HashMap::new() });
+    }
+
     fn on_wire(&mut self, w: &WireSend, out: &mut MonOut) {
         let Some(path) = w.path else { return };
+        self.last_send.insert(path, w.t);
+        if let Some(d) = self.dead_since.get(&path)
+            && w.t > *d
+        {
+            out.violate(&format!("{M19}.removed"), "still_sending_whole_loop", w.t, format!("path {path} was removed by the reload applied by {d} but its socket still sends (real loop)"));
+            self.dead_since.remove(&path);
+        }
         match w.call {
             UplinkCall::Send => {
                 if ptype(&w.offered[0]) == Some(T_KEEPALIVE) {
@@ -195,7 +275,22 @@ impl WMon {
         }
     }
 
-    fn on_new_socket(&mut self, now: u64, path: usize) {
+    fn on_new_socket(&mut self, now: u64, path: usize, v6: bool, out: &mut MonOut) {
+        let heard_recently = self.heard.get(&path).is_some_and(|h| now.saturating_sub(*h) < 1500);
+        match self.reload.as_mut() {
+            Some(r) if r.added.contains(&path) => {
+                *r.binds_seen.entry(path).or_insert(0) += 1;
+            }
+            Some(r) if r.survivors.contains(&path) && heard_recently && now >= r.ts => {
+                out.violate(&format!("{M19}.survivor"), "recreated_whole_loop", now, format!("path {path} is in the old and the new list and was heard {} ms ago, yet its socket was re-created (real loop)", now - self.heard[&path]));
+            }
+            Some(r) if r.removed.contains(&path) => {}
+            _ if !self.active.contains(&path) && !v6 && !self.active.is_empty() && !self.c19_off => {
+                out.violate(&format!("{M19}.applied"), "unlisted_bind_whole_loop", now, format!("a socket was bound for path {path}, which is not in the uplink list {:?} (real loop)", self.active));
+            }
+            _ => {}
+        }
+        self.dead_since.remove(&path);
         self.registered.remove(&path);
         self.heard.remove(&path);
         self.last_ka.remove(&path);
@@ -228,7 +323,8 @@ impl WMon {
             if self.on_wire.contains(&bytes) {
                 continue;
             }
-            let excused = self.resets.iter().any(|r| *r + 50 >= t && *r <= now);
+            let excused = self.resets.iter().any(|r| *r + 50 >= t && *r <= now)
+                || self.reload_windows.iter().any(|(a, b)| *a <= t + 18 && t <= *b);
             if excused {
                 out.stats.inc("w.excused_by_reset");
             } else {
@@ -247,6 +343,47 @@ impl WMon {
                 out.violate(&format!("{M9}.relay"), "not_delivered_whole_loop", now, format!("{}-byte uplink datagram of type {:x?} delivered at {t} never reached the client (real loop)", b.len(), ptype(&b)));
             } else {
                 i += 1;
+            }
+        }
+        // ---- C19: the reload is applied by the next housekeeping tick ----
+        if self.reload.as_ref().is_some_and(|r| now > r.deadline) {
+            let r = self.reload.take().unwrap();
+            for p in &r.added {
+                let n = r.binds_seen.get(p).copied().unwrap_or(0);
+                if n != 1 && !self.v6_paths.contains(p) {
+                    out.violate(
+                        &format!("{M19}.applied"),
+                        if n == 0 { "addition_missing_whole_loop" } else { "added_twice_whole_loop" },
+                        now,
+                        format!("reload at {}: path {p} is new in the list; {n} sockets were bound for it by {} (real loop)", r.ts, r.deadline),
+                    );
+                }
+            }
+            for p in &r.removed {
+                self.dead_since.insert(*p, r.deadline);
+                self.registered.remove(p);
+                self.heard.remove(p);
+                self.last_ka.remove(p);
+            }
+            self.active = r.list.clone();
+            out.probe("w.c19.applied");
+        }
+        // a link the list keeps (or a refused reload leaves alone) does not fall silent
+        if let Some(ts) = self.last_reload_ts
+            && now > ts + 1100
+            && now < ts + 4000
+            && self.reload.is_none()
+        {
+            for p in &self.active {
+                let heard = self.heard.get(p).is_some_and(|h| now.saturating_sub(*h) < 1500);
+                if heard
+                    && self.registered.contains_key(p)
+                    && let Some(ls) = self.last_send.get(p)
+                    && now.saturating_sub(*ls) > 2500
+                {
+                    out.violate(&format!("{M19}.survivor"), "silent_whole_loop", now, format!("path {p} is in the uplink list and hears the receiver, but has sent nothing for {} ms after the reload at {ts} (real loop)", now - ls));
+                    self.last_send.insert(*p, now);
+                }
             }
         }
         let budget = self.paths_seen.len() as u64 * (self.data_routed / 100 + 1);
@@ -311,6 +448,8 @@ async fn run(plan: &LPlan, want_excerpt: bool) -> RunOutcome {
     core_hooks::set_clock_fn(Some(tokio_now_ms));
     let lq = net_hooks::ListenerQueue::new();
     net_hooks::set_listener_source(Some(lq.clone()));
+    let sighup = Arc::new(tokio::sync::Notify::new());
+    net_hooks::set_sighup_source(Some(sighup.clone()));
     seam.with(|s| {
         for i in 0..8 {
             s.path_for_ip(crate::lsim::path_ip(i));
@@ -350,6 +489,7 @@ async fn run(plan: &LPlan, want_excerpt: bool) -> RunOutcome {
     };
     let mut env = Env::new(plan);
     let mut mon = WMon::default();
+    mon.active = seam.with(|s| plan.initial_ips().iter().map(|ip| s.path_for_ip(*ip)).collect());
     let client_addr: SocketAddr = "127.0.0.1:40000".parse().unwrap();
     let start_ms = plan.time_base_ms;
     let mut q: BinaryHeap<std::cmp::Reverse<Timed>> = BinaryHeap::new();
@@ -426,6 +566,27 @@ async fn run(plan: &LPlan, want_excerpt: bool) -> RunOutcome {
                             }
                         }
                         Action::Critical { ms } => critical.extend_to(now + ms),
+                        Action::Reload { text } => {
+                            match text {
+                                Some(t) => {
+                                    let _ = std::fs::write(&ips_file, t);
+                                }
+                                None => {
+                                    let _ = std::fs::remove_file(&ips_file);
+                                }
+                            }
+                            let paths: Vec<(std::net::IpAddr, usize)> = seam.with(|s| {
+                                text.as_deref().map(parsable_lines).unwrap_or_default().into_iter().map(|ip| (ip, s.path_for_ip(ip))).collect()
+                            });
+                            for (ip, p) in &paths {
+                                if ip.is_ipv6() && !mon.v6_paths.contains(p) {
+                                    mon.v6_paths.push(*p);
+                                }
+                            }
+                            mon.on_reload(now, text.as_deref(), &paths, &mut out);
+                            stats_c.inc("fault.sighup_reload");
+                            sighup.notify_one();
+                        }
                         _ => {}
                     }
                 }
@@ -455,7 +616,8 @@ async fn run(plan: &LPlan, want_excerpt: bool) -> RunOutcome {
         let new_gens: Vec<u64> = seam.with(|s| s.path_gen.clone());
         for (p, g) in new_gens.iter().enumerate() {
             if gens.get(p).copied().unwrap_or(0) != *g {
-                mon.on_new_socket(now, p);
+                let v6 = mon.v6_paths.contains(&p);
+                mon.on_new_socket(now, p, v6, &mut out);
             }
         }
         gens = new_gens;
